@@ -133,3 +133,104 @@ package fun
 //@   ensures recorded: reportable(o, err) ==> calls(o.ErrorHandler) == old(calls(o.ErrorHandler)) + 1
 //@   ensures notrecorded: !reportable(o, err) ==> calls(o.ErrorHandler) == old(calls(o.ErrorHandler))
 //@   ensures continues: result == mayContinue(o, err)
+
+// ---------------------------------------------------------------------------
+// Function wrappers (C15). The wrapped function is an unknown function value:
+// calls(f) counts its executions (ghost), every call may return anything.
+// ---------------------------------------------------------------------------
+
+// Once: the wrapped function is executed only inside sync.Once.Do (trusted:
+// exactly one Do over all goroutines runs its body, and every Do returns only
+// after that run completed), exactly once there; a call that finds the once
+// already done neither executes the function nor writes the cached result; the
+// value returned is the cached cell's content after Do.
+//@ func (Worker).Once$1
+//@   props C15
+//@   option old section
+//@   requires wf != nil && once != nil
+//@   ensures executor: !old(oncedone(once)) ==> calls(wf) == old(calls(wf)) + 1
+//@   ensures latecomer: old(oncedone(once)) ==> calls(wf) == old(calls(wf)) && err == old(err)
+//@   ensures oncedone(once) && result == err
+//@   modifies cell(err)
+
+//@ func (Processor).Once$1
+//@   props C15
+//@   option old section
+//@   requires pf != nil && once != nil
+//@   ensures executor: !old(oncedone(once)) ==> calls(pf) == old(calls(pf)) + 1
+//@   ensures latecomer: old(oncedone(once)) ==> calls(pf) == old(calls(pf)) && err == old(err)
+//@   ensures oncedone(once) && result == err
+//@   modifies cell(err)
+
+//@ func (Producer).Once$1
+//@   props C15
+//@   option old section
+//@   requires pf != nil && once != nil
+//@   ensures executor: !old(oncedone(once)) ==> calls(pf) == old(calls(pf)) + 1
+//@   ensures latecomer: old(oncedone(once)) ==> calls(pf) == old(calls(pf)) && err == old(err) && out == old(out)
+//@   ensures oncedone(once) && result0 == out && result1 == err
+//@   modifies cell(err), cell(out)
+
+//@ func (Operation).Once$1
+//@   props C15
+//@   option old section
+//@   requires wf != nil && once != nil
+//@   ensures executor: !old(oncedone(once)) ==> calls(wf) == old(calls(wf)) + 1
+//@   ensures latecomer: old(oncedone(once)) ==> calls(wf) == old(calls(wf))
+//@   ensures oncedone(once)
+
+//@ func (Handler).Once$1
+//@   props C15
+//@   option old section
+//@   requires of != nil && once != nil
+//@   ensures executor: !old(oncedone(once)) ==> calls(of) == old(calls(of)) + 1
+//@   ensures latecomer: old(oncedone(once)) ==> calls(of) == old(calls(of))
+//@   ensures oncedone(once)
+
+// Lock / WithLock: the wrapped function is called exactly once per call of the
+// wrapper, while the mutex is held (so two executions never overlap), and the
+// mutex is released on every exit.
+//@ func (Worker).WithLock$1
+//@   props C15
+//@   option calls-under wf mtx
+//@   option callbacks-may-panic
+//@   requires wf != nil && mtx != nil && !held(mtx)
+//@   ensures !held(mtx) && calls(wf) == old(calls(wf)) + 1
+//@   ensures-panic !held(mtx)
+//@   panics when true
+
+//@ func (Operation).WithLock$1
+//@   props C15
+//@   option calls-under wf mtx
+//@   option callbacks-may-panic
+//@   requires wf != nil && mtx != nil && !held(mtx)
+//@   ensures !held(mtx) && calls(wf) == old(calls(wf)) + 1
+//@   ensures-panic !held(mtx)
+//@   panics when true
+
+//@ func (Processor).WithLock$1
+//@   props C15
+//@   option calls-under pf mtx
+//@   option callbacks-may-panic
+//@   requires pf != nil && mtx != nil && !held(mtx)
+//@   ensures !held(mtx) && calls(pf) == old(calls(pf)) + 1
+//@   ensures-panic !held(mtx)
+//@   panics when true
+
+//@ func (Producer).WithLock$1
+//@   props C15
+//@   option calls-under pf mtx
+//@   option callbacks-may-panic
+//@   requires pf != nil && mtx != nil && !held(mtx)
+//@   ensures !held(mtx) && calls(pf) == old(calls(pf)) + 1
+//@   ensures-panic !held(mtx)
+//@   panics when true
+
+//@ func (Handler).WithLock$1
+//@   props C15
+//@   option calls-under of mtx
+//@   option callbacks-may-panic
+//@   requires of != nil && mtx != nil && !held(mtx)
+//@   ensures !held(mtx) && calls(of) == old(calls(of)) + 1
+//@   ensures-panic !held(mtx)
+//@   panics when true
